@@ -20,6 +20,11 @@ def sh(cmd, cwd=None, timeout=3600):
     return r.returncode, r.stdout + r.stderr
 
 
+def wt(prop, k):
+    k = int(k)
+    return f"/tmp/wt10-{prop}" if k >= 28 else f"/tmp/wt9-{prop}" if k >= 25 else f"/tmp/wt-{prop}"
+
+
 def parse_notes(d):
     notes = open(os.path.join(d, "notes.md")).read()
     m = re.search(r"`((?:[\w\-\.]+/)*tests/[\w\-\.]+\.rs)`", notes)
@@ -32,7 +37,7 @@ def parse_notes(d):
 
 
 def verify(prop, k):
-    w = f"/tmp/wt9-{prop}" if int(k) >= 25 else f"/tmp/wt-{prop}"
+    w = wt(prop, k)
     d = f"{w}/.mut/{k}"
     notes, dest, cmd = parse_notes(d)
     res = {"property": prop, "k": k, "demo_dest": dest, "demo_cmd": cmd}
@@ -72,7 +77,7 @@ def verify(prop, k):
 
 
 def check(prop, k, props=None):
-    d = (f"/tmp/wt9-{prop}/.mut/{k}" if int(k) >= 25 else f"/tmp/wt-{prop}/.mut/{k}")
+    d = f"{wt(prop, k)}/.mut/{k}"
     if not os.path.isdir(d):
         d = f"{VERIF}/seeded/{prop}-{k}"
     rc, out = sh("git -C /repo status --porcelain --untracked-files=no")
@@ -99,7 +104,7 @@ def check(prop, k, props=None):
 
 
 def keep(prop, k):
-    d = (f"/tmp/wt9-{prop}/.mut/{k}" if int(k) >= 25 else f"/tmp/wt-{prop}/.mut/{k}")
+    d = f"{wt(prop, k)}/.mut/{k}"
     dst = f"{VERIF}/seeded/{prop}-{k}"
     os.makedirs(dst, exist_ok=True)
     for f in ["patch.diff", "demo.rs", "notes.md"]:
